@@ -19,7 +19,11 @@ class Opaque:
     def _pv_getattr(self, ex, name):
         if name in self._attrs:
             return self._attrs[name]
-        raise PyRaise(make_exc(ex.interp, "AttributeError", f"{self._name} has no attribute {name}"))
+        if getattr(ex, "_probing_hasattr", 0):
+            # hasattr(stub, name): the stub's attribute set is its contract (e.g. which generator interface is present)
+            raise PyRaise(make_exc(ex.interp, "AttributeError", f"{self._name} has no attribute {name}"))
+        # the real object may well have this member: an access the contract stub does not model is undecided, never an AttributeError of the program
+        raise OutsideSubset(f"contract stub {self._name} has no member {name}")
 
     def _pv_setattr(self, ex, name, v):
         self._attrs[name] = v
